@@ -446,6 +446,7 @@ class OpRunner(object):
         pb = w.lpath(lab['r'], lab['d'], lab['n'])
         w.make_object(lab['o'], w.cfg['kind'][lab['o'] - 1], pb)
         w.register(lab['o'], pb)
+        w.baseline = world.snapshot(w.root)       # the harness itself changed the world
         return {'exit': 'ok'}, None
 
     def rmdir(self, lab, state):
@@ -453,6 +454,7 @@ class OpRunner(object):
         w = self.w
         p = w.dpath(lab['r'], lab['d'])
         shutil.rmtree(p)
+        w.baseline = world.snapshot(w.root)
         return {'exit': 'ok'}, None
 
     def run(self, lab, state, slots=None, **kw):
